@@ -111,6 +111,11 @@ def identities(ctx, obj, T, units, label, elemental):
                 ctx.fail('unit-ratio:%s' % nm, '[%s] %s in %s = %r, in %s = %r, ratio of gas constants %r' % (label, nm, a, x, b, y, ra))
 
 
+def molgen_fused(smi):
+    from vlib import molgen
+    return molgen.has_fused_aromatic(smi)        # (Mol objects of fused aromatics decompose differently: known finding of C03)
+
+
 def formula_counts(smi):
     from rdkit import Chem
     from rdkit.Chem.rdMolDescriptors import CalcMolFormula
@@ -192,6 +197,25 @@ def check_estimate(ctx, case):
                 ctx.fail('elemental-G', '[%s] GoRT(T, True) - GoRT(T) = %r, expected %r' % (label, G1 - G0, elemental))
         else:
             ctx.event('elemental:element-not-tabulated')
+    # the molecule may be given as an RDKit Mol object (the documented parameter type): same descriptors, same elemental reference
+    if elemental is not None and Ts and not molgen_fused(smi):
+        from rdkit import Chem
+        T = Ts[0]
+        ref_vals = (quiet(est.get_SoR, T, S_elements=True), quiet(est.get_GoRT, T, S_elements=True))
+        for form, mk in (('Mol object', lambda: Chem.MolFromSmiles(smi)), ('Mol object with explicit hydrogens', lambda: Chem.AddHs(Chem.MolFromSmiles(smi)))):
+            try:
+                e2 = lib.Estimate(quiet(lib.GetDescriptors, mk()), 'thermochem')
+                got = (quiet(e2.get_SoR, T, S_elements=True), quiet(e2.get_GoRT, T, S_elements=True))
+            except Exception as e:
+                ctx.fail('elemental-raises:%s:Mol-input' % type(e).__name__, '[%s] decomposed from a %s, then estimated: S/R relative to the elements raised %s: %s'
+                         % (label, form, type(e).__name__, str(e)[:160]))
+                break
+            ctx.count()
+            ctx.event('elemental:mol-object-input')
+            if any(abs(a - b) > 1e-10 * max(1.0, abs(a)) for a, b in zip(ref_vals, got)):
+                ctx.fail('elemental-sum:Mol-input', '[%s] (SoR, GoRT) relative to the elements from the SMILES %r, from a %s %r' % (label, ref_vals, form, got))
+                break
+        quiet(lib.GetDescriptors, smi)
     # the estimate belongs to ITS molecule: decomposing another molecule with the same library object afterwards does not
     # change what 'relative to the elements' means for an estimate that already exists
     if elemental is not None and Ts:
